@@ -297,12 +297,7 @@ func (c *config) WriteFrontendMaps() error {
 		if crtFile == "" {
 			crtFile = c.frontend.DefaultCrtFile
 		}
-		if crtFile != c.frontend.DefaultCrtFile ||
-			tls.ALPN != "" ||
-			tls.CAFilename != "" ||
-			tls.Ciphers != "" ||
-			tls.CipherSuites != "" ||
-			tls.Options != "" {
+		if c.hasCustomTLS(host) {
 			// has custom tls config
 			//
 			// TODO optimization: distinct hostnames that shares crt, ca and crl
@@ -335,6 +330,13 @@ func (c *config) WriteFrontendMaps() error {
 				crtListEntry = fmt.Sprintf("%s [%s] %s", crtFile, strings.Join(bindConf, " "), host.Hostname)
 			}
 			crtListItems = append(crtListItems, &hatypes.HostsMapEntry{Key: crtListEntry})
+		} else if host.HasTLS() && c.wildcardHasCustomTLS(host) {
+			// This host is served with the default certificate and bind options, but
+			// a wildcard hostname that matches it has its own crt-list entry, which
+			// haproxy would select for the SNI of this host because it only falls
+			// back to the default entry if neither an exact nor a wildcard filter
+			// matches. An exact filter gives the default certificate back to the host.
+			crtListItems = append(crtListItems, &hatypes.HostsMapEntry{Key: fmt.Sprintf("%s %s", crtFile, host.Hostname)})
 		}
 	}
 	if err := c.options.mapsTemplate.WriteOutput(crtListItems, c.frontend.CrtListFile); err != nil {
@@ -345,6 +347,30 @@ func (c *config) WriteFrontendMaps() error {
 	}
 	c.frontend.Maps = fmaps
 	return nil
+}
+
+// hasCustomTLS returns true if the host has its own entry in the crt-list of
+// the frontend: a certificate other than the default one or custom bind options.
+func (c *config) hasCustomTLS(host *hatypes.Host) bool {
+	tls := host.TLS
+	return (tls.TLSFilename != "" && tls.TLSFilename != c.frontend.DefaultCrtFile) ||
+		tls.ALPN != "" ||
+		tls.CAFilename != "" ||
+		tls.Ciphers != "" ||
+		tls.CipherSuites != "" ||
+		tls.Options != ""
+}
+
+// wildcardHasCustomTLS returns true if the wildcard hostname that haproxy
+// matches against the SNI of host - the first label replaced with `*` - is
+// configured and has its own entry in the crt-list of the frontend.
+func (c *config) wildcardHasCustomTLS(host *hatypes.Host) bool {
+	dot := strings.Index(host.Hostname, ".")
+	if dot < 0 {
+		return false
+	}
+	wildcard := c.hosts.FindHost("*" + host.Hostname[dot:])
+	return wildcard != nil && wildcard != host && !wildcard.SSLPassthrough() && c.hasCustomTLS(wildcard)
 }
 
 // rootRedirectBackendChanged returns true if a changed backend is the target
